@@ -27,7 +27,7 @@ module Copy = struct
            | ["copy"; _; _; h; size; cseed; smode; dperm] ->
                let c = content (int_of_string size) (int_of_string cseed) in
                let dperm = int_of_string dperm in
-               let dst0 = if dperm < 0 then None else Some (str_of_string "old-content", n_of_int dperm) in
+               let dst0 = if dperm < 0 then None else Some (str_of_string (String.concat "" (List.init ((int_of_string size + 100) / 12 + 1) (fun _ -> "old-content."))), n_of_int dperm) in
                let r = copy_transcript faults (h = "1") bufsize c (n_of_int (int_of_string smode)) dst0 (n_of_int 0o644) in
                let sum = match r.c_sum with None -> "nil" | Some t -> md5hex t in
                let dst = match r.c_dst with
